@@ -148,6 +148,32 @@ Theorem C01_filter_setting_irrelevant :
 Proof. exact filter_setting_irrelevant. Qed.
 Print Assumptions C01_filter_setting_irrelevant.
 
+(* ... and against the plain map of (2): when the memdbs and table files hold exactly the stored collection of an
+   admissible history, DB.Get computed on the bytes at the history's current sequence number is the plain
+   map's answer, and at every protected sequence number the answer judged on everything ever written. *)
+Theorem C01_get_is_map_bytes :
+  forall c, comparer_ok c -> forall p, kparams_ok p -> (keyTypeSeek p <= keyTypeVal p)%N ->
+  forall mp, MemDB.mparams_ok mp ->
+  forall tp crc decompress fname ufc verify ri st ops k,
+  wf_bstate c p mp tp crc decompress fname ufc verify ri st -> wf_bytes k ->
+  hops_ok c p h_init ops -> h_store (hrun ops) = all_entries (abs c mp tp crc decompress fname ufc verify ri st) ->
+  (h_seq (hrun ops) <= keyMaxSeq p)%N ->
+  bapi (db_get_bytes c p mp tp crc decompress fname ufc verify st k (h_seq (hrun ops))) =
+  Some (a_get c k (map_of c p ops)).
+Proof. exact get_is_map_bytes. Qed.
+Print Assumptions C01_get_is_map_bytes.
+
+Theorem C01_history_correct_bytes :
+  forall c, comparer_ok c -> forall p, kparams_ok p -> (keyTypeSeek p <= keyTypeVal p)%N ->
+  forall mp, MemDB.mparams_ok mp ->
+  forall tp crc decompress fname ufc verify ri st ops k s,
+  wf_bstate c p mp tp crc decompress fname ufc verify ri st -> wf_bytes k ->
+  hops_ok c p h_init ops -> h_store (hrun ops) = all_entries (abs c mp tp crc decompress fname ufc verify ri st) ->
+  protected (hrun ops) s -> (s <= keyMaxSeq p)%N ->
+  bapi (db_get_bytes c p mp tp crc decompress fname ufc verify st k s) = Some (hist_get c p (hrun ops) k s).
+Proof. exact history_correct_bytes. Qed.
+Print Assumptions C01_history_correct_bytes.
+
 (* the boolean certificate the correspondence run evaluates on the abstraction of every dumped byte state *)
 Theorem C01_wf_fullb_sound : forall c, comparer_ok c -> forall p st,
   wf_fullb c p st = true -> wf_state c p st.
